@@ -19,7 +19,7 @@ Lemma by_enum (P : ascii -> bool) : forallb P all_ascii = true -> forall c, P c 
 Proof. intros H c. rewrite forallb_forall in H. apply H, all_ascii_in. Qed.
 
 Definition stop3 (c : ascii) : bool := eqc c 44 || eqc c 124 || eqc c 0.
-Definition namec (c : ascii) : bool := negb (eqc c 58 || is_ws c || eqc c 40 || stop3 c).
+Definition namec (c : ascii) : bool := negb (eqc c 58 || is_ws c || eqc c 40 || stop3 c || eqc c 91 || eqc c 60).
 Definition mac (c : ascii) : bool := negb (multiarch_stop c).
 Definition numc (c : ascii) : bool := negb (eqc c 0 || eqc c 41).
 Definition archc (c : ascii) : bool := negb (eqc c 0 || eqc c 33 || eqc c 93 || is_ws c).
@@ -37,13 +37,15 @@ Lemma eat_ws_sp i : eat_ws (ch 32 :: i) = eat_ws i. Proof. reflexivity. Qed.
 
 (* ---------- word loops ---------- *)
 Lemma substvar_word : forall w name rest, forallb subc w = true ->
+  eqc (peek (eat_ws rest)) 44 || eqc (peek (eat_ws rest)) 124 || eqc (peek (eat_ws rest)) 0 = true ->
   substvar_loop name (w ++ ch 125 :: rest) =
-  Ok ({| p_name := name ++ w; p_arch := None; p_archs := None; p_stages := []; p_ver := None; p_subst := true |}, rest).
+  Ok ({| p_name := name ++ w; p_arch := None; p_archs := None; p_stages := []; p_ver := None; p_subst := true |}, eat_ws rest).
 Proof.
-  induction w as [|c w IH]; intros name rest H.
-  - cbn. now rewrite app_nil_r.
+  induction w as [|c w IH]; intros name rest H St.
+  - cbn [app substvar_loop]. change (eqc (ch 125) 0) with false. change (eqc (ch 125) 125) with true. cbv iota. cbv zeta.
+    rewrite St. now rewrite app_nil_r.
   - cbn [forallb] in H. apply andb_true_iff in H as [Hc Hw]. unfold subc in Hc. apply negb_true_iff in Hc.
-    apply orb_false_iff in Hc as [C1 C2]. cbn [app substvar_loop]. rewrite C1, C2, enc_one, IH by exact Hw.
+    apply orb_false_iff in Hc as [C1 C2]. cbn [app substvar_loop]. rewrite C1, C2, enc_one, IH by assumption.
     now rewrite <- app_assoc.
 Qed.
 
@@ -441,8 +443,9 @@ Proof.
   induction w as [|c w IH]; intros fuel p rel rest H.
   - cbn. rewrite app_nil_r. destruct p; reflexivity.
   - cbn [forallb] in H. apply andb_true_iff in H as [Hc Hw]. unfold namec in Hc. apply negb_true_iff in Hc.
+    apply orb_false_iff in Hc as [Hc C6]. apply orb_false_iff in Hc as [Hc C5].
     apply orb_false_iff in Hc as [Hc C4]. apply orb_false_iff in Hc as [Hc C3]. apply orb_false_iff in Hc as [C1 C2].
-    unfold stop3 in C4. cbn [List.length plus app possi_loop peek adv tl]. rewrite C1, C2, C3, C4. cbn [orb].
+    unfold stop3 in C4. cbn [List.length plus app possi_loop peek adv tl]. rewrite C1, C2, C3, C5, C6, C4. cbn [orb].
     unfold add_name. rewrite enc_one. rewrite IH by exact Hw. cbn [p_name with_name]. rewrite <- app_assoc. reflexivity.
 Qed.
 
@@ -476,9 +479,9 @@ Proof.
   intros W T. pose proof (wp_ne p W) as Hne.
   assert (Hend : forall f q, p_name q <> [] -> possi_loop (S f) q rel rest' = Ok (rel ++ [q], rest')).
   { intros f q Hq. cbn [possi_loop]. pose proof (tail_ok_stop rest rest' T) as St.
-    pose proof (by_enum (fun c => negb (stop3 c) || (negb (eqc c 58) && negb (is_ws c) && negb (eqc c 40))) eq_refl (peek rest')) as F.
-    cbv beta in F. rewrite St in F. cbn in F. apply andb_true_iff in F as [F F3]. apply andb_true_iff in F as [F1 F2].
-    apply negb_true_iff in F1, F2, F3. rewrite F1, F2, F3. cbn [orb]. unfold stop3 in St. rewrite St.
+    pose proof (by_enum (fun c => negb (stop3 c) || (negb (eqc c 58) && negb (is_ws c) && negb (eqc c 40) && negb (eqc c 91) && negb (eqc c 60))) eq_refl (peek rest')) as F.
+    cbv beta in F. rewrite St in F. cbn in F. apply andb_true_iff in F as [F F5]. apply andb_true_iff in F as [F F4]. apply andb_true_iff in F as [F F3]. apply andb_true_iff in F as [F1 F2].
+    apply negb_true_iff in F1, F2, F3, F4, F5. rewrite F1, F2, F3, F4, F5. cbn [orb]. unfold stop3 in St. rewrite St.
     destruct (p_name q); [congruence|reflexivity]. }
   destruct (controllers_all p rest rest' W T) as (f1&H1).
   assert (Via : is_ws (peek (ctl_text p ++ rest)) = true ->
@@ -502,7 +505,7 @@ Definition wf_any (p : possi) : Prop := wf_possi p \/ wf_subst p.
 
 Lemma namec_head_facts c : namec c = true -> is_ws c = false /\ stop3 c = false /\ eqc c 58 = false /\ eqc c 40 = false.
 Proof.
-  unfold namec. intros H. apply negb_true_iff in H. apply orb_false_iff in H as [H C4].
+  unfold namec. intros H. apply negb_true_iff in H. apply orb_false_iff in H as [H C6]. apply orb_false_iff in H as [H C5]. apply orb_false_iff in H as [H C4].
   apply orb_false_iff in H as [H C3]. apply orb_false_iff in H as [C1 C2]. auto.
 Qed.
 
@@ -540,14 +543,22 @@ Proof.
     apply H1. lia.
 Qed.
 
-Lemma subst_render p rel rest : wf_subst p ->
-  forall f, parse_possibility f rel (possi_string p ++ rest) = Ok (rel ++ [p], rest).
+(* a substvar is a whole alternative: what follows it is blanks and then ',' '|' or the end, and the blanks are consumed *)
+Lemma subst_render p rel rest : wf_subst p -> stop3 (peek (eat_ws rest)) = true ->
+  forall f, parse_possibility f rel (possi_string p ++ rest) = Ok (rel ++ [p], eat_ws rest).
 Proof.
-  intros [Hs Hc (A1&A2&A3&A4)] f. unfold possi_string. rewrite Hs. unfold parse_possibility.
+  intros [Hs Hc (A1&A2&A3&A4)] St f. unfold possi_string. rewrite Hs. unfold parse_possibility.
   cbn [app eat_ws]. change (is_ws (ch 36)) with false. cbv iota. cbn [peek]. change (eqc (ch 36) 36) with true. cbv iota.
   unfold parse_substvar. cbn [eat_ws]. change (is_ws (ch 36)) with false. cbv iota. cbn [adv tl].
-  rewrite <- app_assoc. cbn [app]. rewrite (substvar_word (p_name p) [] rest Hc). cbn [app].
+  rewrite <- app_assoc. cbn [app]. rewrite (substvar_word (p_name p) [] rest Hc St). cbn [app].
   destruct p; cbn in *; subst. reflexivity.
+Qed.
+Lemma tail_ok_eat rest rest' : tail_ok rest rest' -> eat_ws rest = rest' /\ stop3 (peek rest') = true.
+Proof.
+  intros [[-> Hs]|[-> Hb]].
+  - split; [|exact Hs]. apply eat_ws_id. unfold headok. now apply stop3_not_ws.
+  - assert (St : stop3 (peek rest') = true) by (unfold stop3; rewrite Hb; now rewrite orb_true_r).
+    split; [|exact St]. rewrite eat_ws_sp. apply eat_ws_id. unfold headok. now apply stop3_not_ws.
 Qed.
 
 (* skipping the blank in front of '|' at relation level *)
@@ -562,7 +573,9 @@ Proof.
   rewrite H36. cbn [possi_loop].
   assert (H58 : eqc (peek rest') 58 = false) by (unfold eqc in *; apply N.eqb_eq in Hb; rewrite Hb; reflexivity).
   assert (H40 : eqc (peek rest') 40 = false) by (unfold eqc in *; apply N.eqb_eq in Hb; rewrite Hb; reflexivity).
-  rewrite H58, HW, H40. cbn [orb]. rewrite Hb. rewrite orb_true_r. cbn [orb p_name fresh]. cbn [relation_loop]. rewrite ?Hb. reflexivity.
+  assert (H91 : eqc (peek rest') 91 = false) by (unfold eqc in *; apply N.eqb_eq in Hb; rewrite Hb; reflexivity).
+  assert (H60 : eqc (peek rest') 60 = false) by (unfold eqc in *; apply N.eqb_eq in Hb; rewrite Hb; reflexivity).
+  rewrite H58, HW, H40, H91, H60. cbn [orb]. rewrite Hb. rewrite orb_true_r. cbn [orb p_name fresh]. cbn [relation_loop]. rewrite ?Hb. reflexivity.
 Qed.
 
 Lemma possi_head_facts p rest : wf_any p ->
@@ -594,9 +607,8 @@ Proof.
     exists (S (f1 + f2)). intros [|f] Hf; [lia|]. rewrite relation_loop_S, C0, C44, C124. cbn [orb].
     assert (A1 : (f1 <= f)%nat) by lia. assert (A2 : (f2 <= f)%nat) by lia. rewrite (H1 f A1). apply H2. exact A2.
   - exists (S (S (S f2))). intros [|[|[|f]]] Hf; try lia. rewrite relation_loop_S, C0, C44, C124. cbn [orb].
-    rewrite (subst_render p rel rest W). destruct T as [[-> _]|[-> Hb]].
-    + apply H2. lia.
-    + rewrite relation_skip by exact Hb. apply H2. lia.
+    destruct (tail_ok_eat rest rest' T) as [Ee Se].
+    rewrite (subst_render p rel rest W) by (now rewrite Ee). rewrite Ee. apply H2. lia.
 Qed.
 
 (* ---------- a relation: alternatives joined by " | " ---------- *)
